@@ -1275,6 +1275,11 @@ class Mps(MatrixProduct):
     def _evolve_tdvp_ps(self, mpo, evolve_dt) -> "Mps":
         # PhysRevB.94.165116
         # TDVP projector splitting
+        # the sweeps assume a canonical form with the centre on `qnidx`, at the end the sweep starts from
+        if self.to_right:
+            self.ensure_right_canonical()
+        else:
+            self.ensure_left_canonical()
         # one-site
         if np.iscomplex(evolve_dt):
             mps = self.copy()
@@ -1414,6 +1419,11 @@ class Mps(MatrixProduct):
     def _evolve_tdvp_ps2(self, mpo, evolve_dt) -> "Mps":
         # PhysRevB.94.165116
         # TDVP projector splitting
+        # the sweeps assume a canonical form with the centre on `qnidx`, at the end the sweep starts from
+        if self.to_right:
+            self.ensure_right_canonical()
+        else:
+            self.ensure_left_canonical()
         # two-site
         if np.iscomplex(evolve_dt):
             mps = self.copy()
